@@ -129,7 +129,10 @@ func (env *Zlisp) sourceItem(item Sexp) error {
 	case *SexpPair:
 		expr := item
 		for expr != SexpNull {
-			list := expr.(*SexpPair)
+			list, isPair := expr.(*SexpPair)
+			if !isPair {
+				return fmt.Errorf("source: improper list ending in %v", expr.SexpString(nil))
+			}
 			if err := env.sourceItem(list.Head); err != nil {
 				return err
 			}
